@@ -111,7 +111,8 @@ Fixpoint insert_at (i : nat) (x : mtch) (l : match_list) : match_list :=
 (* MatchList::add(new_match, replace_if_longer) -> bool, arms in the order of the
    Rust `match self.matches.last_mut()`:
      Some(last) if new.start > last.start  => push; true
-     Some(last) if new.start == last.start => if replace_if_longer { last.end = new.end }  (NO comparison); false
+     Some(last) if new.start == last.start => if replace_if_longer && last.end < new.end { last.end = new.end }; false
+                                              (since commit a09b6a08; before, the end was overwritten without comparing)
      None                                  => push; true
      _ => match binary_search_by_key(new.start) {
             Ok(i) if replace_if_longer => if self[i].end < new.end { self[i].end = new.end }; false
@@ -122,7 +123,7 @@ Definition ml_add (l : match_list) (m : mtch) (replace_if_longer : bool) : match
   | Some last =>
       if (m_start last <? m_start m)%N then (l ++ [m], true)
       else if (m_start m =? m_start last)%N then
-        ((if replace_if_longer
+        ((if replace_if_longer && (m_end last <? m_end m)%N
           then map_at (length l - 1) (fun x => set_end x (m_end m)) l
           else l), false)
       else
